@@ -196,11 +196,15 @@ def queries(tier):
                          "corpus body %r with data byte(s) at %r symbolic (all values keeping it well-formed), every prefix "
                          "length, every single cut" % (tag, hs), timeout=250 if not T else 900, expect_cover=["ok"],
                          family="holes", config={"body": tag, "holes": hs}))
-    for tag in (["one"] if not T else ["one", "zero", "noepi"]):
+    for tag in ["epi-blank", "epi"]:
+        out.append(Q("cut1/%s" % tag, make_holes(tag, [], False),
+                     "corpus body %r (with an epilogue), every prefix length, every single cut position" % tag,
+                     timeout=250 if not T else 900, expect_cover=["ok"], family="cut1", config={"body": tag}))
+    for tag in (["one"] if not T else ["one", "zero", "noepi", "epi-blank"]):
         out.append(Q("cut2/%s" % tag, make_holes(tag, [], True),
                      "corpus body %r, every prefix length, every pair of cut positions" % tag,
                      timeout=250 if not T else 900, expect_cover=["ok"], family="cut2", config={"body": tag}))
-    for tag in (["two", "hyph-bound"] if not T else [t for t, *_ in G.CORPUS]):
+    for tag in (["two", "hyph-bound", "epi-blank"] if not T else [t for t, *_ in G.CORPUS]):
         for vary in ("buffer", "length", "short", "short7"):
             out.append(Q("body_read/%s/%s" % (tag, vary), make_body_read(tag, vary),
                          "corpus body %r streamed through _body_read: %s" % (tag, "every buffer size 1..len+1 (whole body)"
